@@ -16,6 +16,8 @@ Inductive helper :=
 Inductive dkey :=
 | DFlag        (* deferred, reads a completion flag assigned after the last fallible step *)
 | DErr         (* deferred, reads the named error result *)
+| DShadowedErr (* deferred, reads a local `err` that shadows the named result and is nil whenever the
+                  defer was registered: the commit branch is taken however the body ended *)
 | DNoDefer     (* not deferred: runs only when the body returns *)
 | DNA.         (* no decision (read-only / multi-output driver) *)
 
@@ -29,6 +31,6 @@ Definition helper_eqb (a b : helper) : bool :=
   end.
 Definition dkey_eqb (a b : dkey) : bool :=
   match a, b with
-  | DFlag, DFlag | DErr, DErr | DNoDefer, DNoDefer | DNA, DNA => true
+  | DFlag, DFlag | DErr, DErr | DShadowedErr, DShadowedErr | DNoDefer, DNoDefer | DNA, DNA => true
   | _, _ => false
   end.
